@@ -10,6 +10,17 @@ GROUPS = {
 }
 
 PROPS = {
-    'C08': {'groups': ['num']},
-    'C09': {'groups': ['num']},
+    'C08': {'groups': ['num'], 'search': 'search_num',
+            'assumptions': [
+                'assumed specifications of num-bigint 0.4.4 / num-rational 0.4.1 / num-traits / core functions listed in trusted_base (written from their sources)',
+                'Ratio<i32> values are in lowest terms with a positive denominator (invariant of every constructor marwood calls)',
+                'f64 arithmetic is uninterpreted: the 2^-50 relative error bound of inexact fallbacks is not decided',
+                'machine integers are NOT treated as mathematical: Verus checks i64/i32/u32 overflow bit-exactly',
+                'results built inside closures passed to Option::map (float arms of quotient / %) are opaque to Verus',
+            ]},
+    'C09': {'groups': ['num'], 'search': 'search_num',
+            'assumptions': [
+                'assumed specifications of BigInt / Ratio comparison (axiom_big_eq, axiom_big_cmp, axiom_r32_eq, axiom_r32_cmp) as the mathematical order of their values',
+                'comparisons in which one operand is a Float are not decided (exec `as f64` casts are havoc to Verus): only panic-freedom of those arms is proved',
+            ]},
 }
